@@ -115,9 +115,33 @@ func newDriver(order string) driver {
 		// decimal strings: lexicographic order differs from numeric order ("10" < "9")
 		sk := func(k int) string { return "k" + itoa(k) }
 		return &drv[string]{m: skiplist.New[string, int](ord.String), key: sk, name: sk, lt: func(a, b int) bool { return sk(a) < sk(b) }}
+	case "ptr":
+		// keys are pointers to records ordered by a field: the trait dereferences its arguments, as traits over
+		// pointer keys do; it is only ever given keys that were put or asked for
+		tab := map[int]*account{}
+		pk := func(k int) *account {
+			if a, ok := tab[k]; ok {
+				return a
+			}
+			a := &account{id: k}
+			tab[k] = a
+			return a
+		}
+		return &drv[*account]{m: skiplist.New[*account, int](ord.From[*account](func(a, b *account) ord.Ordering { return cmpInt(a.id, b.id) })), key: pk,
+			name: func(k int) string { return fmt.Sprintf("&{%d}", k) }, lt: func(a, b int) bool { return a < b }}
+	case "iface":
+		// interface keys holding values of one dynamic type; the trait asserts the type (a nil interface would panic)
+		return &drv[fmt.Stringer]{m: skiplist.New[fmt.Stringer, int](ord.From[fmt.Stringer](func(a, b fmt.Stringer) ord.Ordering { return cmpInt(int(a.(label)), int(b.(label))) })),
+			key: func(k int) fmt.Stringer { return label(k) }, name: func(k int) string { return label(k).String() }, lt: func(a, b int) bool { return a < b }}
 	}
 	panic("order " + order)
 }
+
+type account struct{ id int }
+
+type label int
+
+func (l label) String() string { return "L" + strconv.Itoa(int(l)) }
 
 // ---- dump parser and structural invariants
 
@@ -331,7 +355,7 @@ func TestRun(t *testing.T) {
 		return
 	}
 	bigCases(t)
-	orders := []string{"int", "rev", "str", "mod"}
+	orders := []string{"int", "rev", "str", "mod", "ptr", "iface"}
 	// ---- exhaustive: all histories over 3 keys
 	depth := common.Pick(5, 6)
 	hseeds := common.Pick(6, 20)
